@@ -21,7 +21,7 @@ VARIABLES faults, stage, outcome
 vars == <<faults, stage, outcome>>
 Lib == {"Document", "FileError", "FileFormatError", "UnsupportedError"}
 ContainerFaults == {"missing", "wrong-suffix", "truncated-0", "truncated-local-header", "truncated-in-member", "truncated-central-dir",
-                    "truncated-end-record", "nested-index-damaged", "zip-feature", "bad-plist", "plist-xml-garbage", "plist-no-version", "plist-version-type", "missing-plist", "encrypted", "no-objects"}
+                    "truncated-end-record", "nested-index-damaged", "zip-feature", "bad-plist", "plist-xml-garbage", "plist-no-version", "plist-version-type", "missing-plist", "missing-build-history", "encrypted", "no-objects"}
 MemberFaults == {"crc", "empty", "short", "cut-at-chunk", "cut-off-chunk", "trailing", "marker", "len-long", "len-short", "bad-snappy", "bad-varint",
                  "bad-archive-info", "unknown-type", "no-messages"}
 AllFaults == [kind : ContainerFaults, at : {0}] \cup [kind : MemberFaults, at : Members]
@@ -36,7 +36,7 @@ Effect(f) ==
                                                                             \* unknown compression method, encrypted member, patched data
     [] f.kind = "bad-plist" -> "pass"                                    \* malformed Properties.plist: a warning, not an error
     [] f.kind \in {"plist-xml-garbage", "plist-no-version", "plist-version-type"} -> (IF Mode = "pinned" THEN "Other" ELSE "pass")   \* so are the other ways of not stating a version
-    [] f.kind = "missing-plist" -> "FileFormatError"
+    [] f.kind \in {"missing-plist", "missing-build-history"} -> "FileFormatError"       \* either of the two metadata files (zip file or package folder)
     [] f.kind = "encrypted" -> "UnsupportedError"
     [] f.kind = "no-objects" -> (IF Mode = "pinned" THEN "Other" ELSE "FileFormatError")
     [] f.kind = "crc" -> (IF Mode = "pinned" THEN "Other" ELSE "FileFormatError")
@@ -48,7 +48,7 @@ Effect(f) ==
     [] f.kind = "no-messages" -> (IF Mode = "pinned" THEN "Other" ELSE "FileFormatError")      \* a well-formed segment header that lists no message
 StageOf(f) == CASE f.kind \in {"missing"} -> 1 [] f.kind = "wrong-suffix" -> 2
                 [] f.kind \in {"truncated-0", "truncated-central-dir", "truncated-end-record", "truncated-local-header", "nested-index-damaged", "zip-feature"} -> 3
-                [] f.kind \in {"bad-plist", "plist-xml-garbage", "plist-no-version", "plist-version-type", "missing-plist"} -> 4 [] f.kind = "encrypted" -> 5
+                [] f.kind \in {"bad-plist", "plist-xml-garbage", "plist-no-version", "plist-version-type", "missing-plist", "missing-build-history"} -> 4 [] f.kind = "encrypted" -> 5
                 [] f.kind = "truncated-in-member" -> 3
                 [] f.kind = "no-objects" -> Len(Stages)
                 [] OTHER -> 5 + f.at
